@@ -7,8 +7,8 @@ package converter
 
 //@ func (*DomConverter).visitElementNodeHandler(node)
 //@   requires wfConv(dc) && node != nil && inheap(node) && node.Type == 3 && (node.Parent == nil || node.Parent.Type == 3)
-//@   requires !pendingNode(dc, node) && inTreeOf(as(dc.builder, *webdoc.WebDocumentBuilder).textBuilder, node)
+//@   requires !pendingNode(dc, node) && walkPos(dc, node) && inTreeOf(as(dc.builder, *webdoc.WebDocumentBuilder).textBuilder, node)
 //@   ensures [C01] wfConv(dc)
 //@   ensures [C04] #invisible-skipped implies(!old(domutil.IsProbablyVisible(node)), !result && builderUntouched())
 //@   loop 0 invariant wfConv(dc) && node.Type == 3 && (node.Parent == nil || node.Parent.Type == 3) && inheap(node)
-//@   loop 0 invariant inTreeOf(as(dc.builder, *webdoc.WebDocumentBuilder).textBuilder, node) && !pendingNode(dc, node)
+//@   loop 0 invariant inTreeOf(as(dc.builder, *webdoc.WebDocumentBuilder).textBuilder, node) && !pendingNode(dc, node) && walkPos(dc, node)
